@@ -84,6 +84,8 @@ def base_topology():
     for i in range(6):
         samples[i] = {"name": f"SMP{i}", "chain": [2 + i], "points": [i, i, 50 + 10 * i, i, 20 + i],
                       "mode": [0, 1, 2, 3, 5, 4][i], "freq": i % 6, "seq": 10 + i}
+    # sample 3 is shared (partials 2 and 4) and starts after a leading-cluster offset
+    samples[3]["chain"], samples[3]["cluster_top"] = [9, 5], 1
     return {
         "volumes": [{"name": "VOLA", "perfs": [0, 1]}, {"name": "VOLB", "perfs": [2]}],
         "performances": {0: {"name": "PERF0", "patches": [0, 1]}, 1: {"name": "PERF1", "patches": [1]},
